@@ -26,6 +26,13 @@ def main():
     for f in ("patch.diff", "demo.py", "meta.json"):
         if os.path.abspath(src) != os.path.abspath(dst):
             shutil.copy(os.path.join(src, f), os.path.join(dst, f))
+    # demonstrations written in a seeder's own worktree sometimes assert that very path: make the stored copy location independent
+    import re
+    dp = os.path.join(dst, "demo.py")
+    dsrc = open(dp).read()
+    dnew = re.sub(r'litex\.__file__\.startswith\((["\'])/tmp/sc_C\d\d/?\1\)', 'litex.__file__.startswith(__import__("os").environ.get("PYTHONPATH", "/").split(":")[0])', dsrc)
+    if dnew != dsrc:
+        open(dp, "w").write(dnew)
     meta = json.load(open(os.path.join(dst, "meta.json")))
     wt = tempfile.mkdtemp(prefix="wt_seed_", dir="/tmp")
     os.rmdir(wt)
